@@ -17,6 +17,9 @@ use bitcoincore_rpc::{
     Client as BitcoindClient, Error::JsonRpc as JsonRpcError, RpcApi,
 };
 
+/// How often a hanging [Carrier] checks by itself whether bitcoind is reachable again.
+const REACHABILITY_CHECK_INTERVAL: std::time::Duration = std::time::Duration::from_secs(1);
+
 /// Component in charge of the interaction with Bitcoind by sending / querying transactions via RPC.
 #[derive(Debug)]
 pub struct Carrier {
@@ -65,11 +68,29 @@ impl Carrier {
     }
 
     /// Hangs the process until bitcoind is reachable. If bitcoind is already reachable it just passes trough.
+    ///
+    /// The chain monitor flags bitcoind as reachable after a successful poll, but it may well be the chain monitor who is
+    /// hanging here (while processing a block), or it may be waiting for a lock held by whoever is hanging here. Hence,
+    /// while waiting to be notified, we also check by ourselves whether bitcoind is back every now and then.
     fn hang_until_bitcoind_reachable(&self) {
         let (lock, notifier) = &*self.bitcoind_reachable;
         let mut reachable = lock.lock().unwrap();
         while !*reachable {
-            reachable = notifier.wait(reachable).unwrap();
+            let (guard, wait_result) = notifier
+                .wait_timeout(reachable, REACHABILITY_CHECK_INTERVAL)
+                .unwrap();
+            reachable = guard;
+            if wait_result.timed_out() && !*reachable {
+                // Do not hold the lock while querying bitcoind
+                drop(reachable);
+                let is_back = self.bitcoin_cli.get_block_count().is_ok();
+                reachable = lock.lock().unwrap();
+                if is_back && !*reachable {
+                    log::info!("Connection with bitcoind has been restored");
+                    *reachable = true;
+                    notifier.notify_all();
+                }
+            }
         }
     }
 
